@@ -87,6 +87,35 @@ theorem layout_functions (h old cert : Nat) :
 theorem cmd31_roundtrip (cmd : Cmd) (h : cmd.wf = true) (rest : Sb31.Bytes) :
     parseCmd (encCmd cmd ++ rest) = .ok (cmd, rest) := parseCmd_enc cmd h rest
 
+/-- the constructors keep the round-trip domain closed: a command that can be constructed and whose fields fit
+    their struct codes is in the domain of `cmd31_roundtrip` (partial fuse words are refused with an SPSDK error,
+    so the PROGRAM_FUSES restriction is no longer a hypothesis on the caller) -/
+theorem constructed_cmd_in_domain (cmd cmd' : Cmd) (h : newCmd cmd = .ok cmd') (hr : cmd'.inRange = true) :
+    cmd' = cmd ∧ cmd'.wf = true := by
+  cases cmd with
+  | progFuses a d =>
+    by_cases hg : d.length % 4 = 0
+    · simp [newCmd, Sb31Consts.fuseDataGuard, hg] at h
+      subst h
+      exact ⟨rfl, by simp [Cmd.wf, hr, hg]⟩
+    · simp [newCmd, Sb31Consts.fuseDataGuard, hg] at h
+  | _ =>
+    simp only [newCmd] at h
+    injection h with h
+    subst h
+    exact ⟨rfl, by simp [Cmd.wf, hr]⟩
+
+theorem partial_fuse_words_refused (a : Nat) (d : Sb31.Bytes) (h : d.length % 4 ≠ 0) :
+    newCmd (.progFuses a d) = .error .spsdk := by
+  simp [newCmd, Sb31Consts.fuseDataGuard, h]
+
+/-- optional configuration keys default to memory id 0 for every command that has one (and `plainInput` to "bin") -/
+theorem config_defaults_agree :
+    Sb31Consts.cfgDefaults = [("CmdConfigureMemory", "memoryId", "0"), ("CmdCopy", "memoryIdFrom", "0"),
+      ("CmdCopy", "memoryIdTo", "0"), ("CmdErase", "memoryId", "0"), ("CmdLoad", "memoryId", "0"),
+      ("CmdLoadCmac", "memoryId", "0"), ("CmdLoadHashLocking", "memoryId", "0"),
+      ("CmdLoadKeyBlob", "plainInput", "bin")] := by decide
+
 /-- size of every exported command: the documented one, a multiple of 16 -/
 theorem cmd31_size (cmd : Cmd) : (encCmd cmd).length = cmdSize cmd ∧ cmdSize cmd % 16 = 0 :=
   ⟨encCmd_length cmd, cmdSize_mod cmd⟩
@@ -384,8 +413,8 @@ example : [Cmd.erase 0 4096 1, .load 0x100 [1, 2, 3] 2, .execute 0xFFFFFFFF, .ca
 example : parseCmd (encCmd (.loadKeyBlob 0xFFFF [9] 0xFFFF) ++ [0xAA]) = .ok (.loadKeyBlob 0xFFFF [9] 0xFFFF, [0xAA]) :=
   cmd31_roundtrip _ (by decide) _
 
-/-- the domain restriction on PROGRAM_FUSES is needed: `CmdProgFuses` stores `len(data) // 4`, so five data bytes
-    do not come back (the loader reads one word) -/
+/-- why the constructor must refuse partial fuse words: the encoder stores `len(data) // 4`, so five data bytes
+    would not come back (the loader reads one word) -/
 theorem fuses_domain_needed :
     parseCmd (encCmd (.progFuses 0 [1, 2, 3, 4, 5])) ≠ .ok (.progFuses 0 [1, 2, 3, 4, 5], []) := by decide
 
